@@ -24,7 +24,7 @@ TIMEOUT = {"quick": 400, "thorough": 2400}
 
 
 def cases(tier, seed):
-    n = 10 if tier == "quick" else 80
+    n = 10 if tier == "quick" else 200
     cs = workload.reader_population(n, seed + 400, payloads=("random",), max_levels=3, max_fields=3)
     out = []
     K = 4
